@@ -120,7 +120,7 @@ func (c06) Build(tier string, seed uint64) []any {
 			}
 		}
 	}
-	small, nGrid, nLine, nRand := 12, 150, 40, 12
+	small, nGrid, nLine, nRand := 12, 600, 160, 30
 	if th {
 		small, nGrid, nLine, nRand = 24, 12800, 1500, 500
 	}
@@ -165,7 +165,7 @@ func (c06) Build(tier string, seed uint64) []any {
 	}
 	// (dense) full 64x64 code-blocks of incompressible 12..16-bit samples: the longest
 	// code-block segments the block coder can emit
-	nDense := 6
+	nDense := 16
 	if th {
 		nDense = 120
 	}
